@@ -375,6 +375,40 @@ theorem C05_glyph_bbox_quarter (b c' e f' : Rat) (f : Font) (fs sc rise : Rat) (
   rw [show g.size = _ from hs]
   split <;> grind
 
+/-- **`LTChar.upright`** (regenerated from `LTChar.__init__`) is the text model's `uprightOf` of the
+text rendering matrix and `Th`, for every matrix; `C05_program` now also equates this field. -/
+theorem C05_glyph_upright (matrix : Matrix) (f : Font) (fs th rise : Rat) (c : Nat) (col : Option Color) :
+    (ltchar matrix f fs (rs_scaling th) rise c col).upright = uprightOf matrix th := by
+  obtain ⟨a, b, c', d, e, f'⟩ := matrix
+  simp only [ltchar]
+  exact upright_eq (a, b, c', d, e, f') th
+
+/-- What that means: under an axis-parallel matrix (positive `Th`) a glyph is upright exactly when it
+is not mirrored in one axis only (`a·d > 0`: `[-1 0 0 -1]`, text turned by 180°, counts as upright);
+under a quarter turn it never is. -/
+theorem C05_upright_axis (a d e f th : Rat) (hth : 0 < th) :
+    uprightOf (a, 0, 0, d, e, f) th = decide (0 < a * d) := by
+  simp only [uprightOf]
+  have h : (0 < a * d * (th / 100)) = (0 < a * d) := by
+    apply propext
+    have h100 : th / 100 = th * (1 / 100) := by grind
+    constructor
+    · intro h
+      by_cases hp : 0 < a * d
+      · exact hp
+      · have : a * d * (th / 100) ≤ 0 := by
+          have h1 : a * d ≤ 0 := by grind
+          have h2 : 0 ≤ th / 100 := by grind
+          have h3 : 0 ≤ (-(a * d)) * (th / 100) := Rat.mul_nonneg (by grind) h2
+          grind
+        grind
+    · intro h
+      exact Rat.mul_pos h (by grind)
+  simp [h]
+
+theorem C05_upright_quarter (b c e f th : Rat) : uprightOf (0, b, c, 0, e, f) th = false := by
+  simp [uprightOf]
+
 /-! ## The nesting budget is only a bound -/
 
 /-- Raising the budget never changes a result already obtained (text model). -/
@@ -571,6 +605,15 @@ example : (ltchar (-2, 0, 0, 3, 100, 50) exFont 10 1 0 33 none).bbox = (90, 44, 
     (ltchar (1, 1, -1, 1, 0, 0) exFont 10 1 0 33 none).bbox = (-8, -2, 7, 13) ∧
     ltcharBox exFont 10 1 0 33 = (0, -2, 5, 8) ∧
     corners (1, 1, -1, 1, 0, 0) (0, -2, 5, 8) = [(2, -2), (7, 3), (-3, 13), (-8, 8)] := by decide +kernel
+
+/-- `upright` on concrete glyphs: plain and 180° text are, mirrored, quarter-turned and text under a
+negative `Tz` are not; a rotation by less than 90° (`[4/5 3/5 -3/5 4/5]`) is. -/
+example : (ltchar (2, 0, 0, 2, 10, 20) exFont 10 (rs_scaling 100) 0 33 none).upright = true ∧
+    (ltchar (-1, 0, 0, -1, 10, 20) exFont 10 (rs_scaling 100) 0 33 none).upright = true ∧
+    (ltchar (-2, 0, 0, 3, 100, 50) exFont 10 (rs_scaling 100) 0 33 none).upright = false ∧
+    (ltchar (0, 1, -1, 0, 40, 60) exFont 10 (rs_scaling 100) 0 33 none).upright = false ∧
+    (ltchar (2, 0, 0, 2, 10, 20) exFont 10 (rs_scaling (-100)) 0 33 none).upright = false ∧
+    (ltchar (4/5, 3/5, -3/5, 4/5, 0, 0) exFont 10 (rs_scaling 100) 0 33 none).upright = true := by decide +kernel
 
 /-- The initial states are related (hypothesis `hR` of `C05_step` is satisfiable). -/
 example : R exEnv (MState.init MATRIX_IDENTITY exRes) ⟨GS.init MATRIX_IDENTITY, [], none, exRes⟩ :=
